@@ -438,6 +438,7 @@ def judge(acc, site, h, repo, before_ids, xfer_ids, want_ids, sent, include_tag,
         acc.violation("%s:shallow:names-unknown-commit" % site, "%s shallow file lists %r" % (desc, unknown), replay)
         shallow -= set(unknown)
     tips = ref.peel(h.tag_target, want_ids)
+    inside, _frontier = set(), set()
     commit_reach = ref.closure(h.edges, [t for t in tips if t in h.parents])
     full = ref.closure(h.edges, want_ids)
     # (1)/(4) completeness of what was transferred
@@ -556,6 +557,13 @@ def judge(acc, site, h, repo, before_ids, xfer_ids, want_ids, sent, include_tag,
     )
     if depth:
         cls += ":depth%d:%s" % (depth, "shallow" if shallow else "no-shallow")
+        if not before_ids and not shallow_before:
+            # informational: does the recorded boundary equal the reference frontier (commits at
+            # shortest distance depth-1 that have parents)?  Parentless commits may or may not be listed.
+            rec = {c for c in shallow if h.parents.get(c)}
+            acc.outcome("%s:depth-boundary:%s" % (site, "equals-reference-frontier" if rec == _frontier else
+                                                  "inside-frontier" if rec - _frontier and any(
+                                                      c in inside and c not in _frontier for c in rec) else "differs"))
     if not acc.samples:
         acc.sample("%s -> %s (sent %s objects, receiver had %d, has %d)"
                    % (desc, cls, "?" if sent is None else len(sent), len(before_ids), len(after_ids)))
@@ -1326,6 +1334,26 @@ NAMED4 = {
 }
 
 
+# merges whose parents lie at different distances from the merge (the detour through the other
+# parent is 1 or 2 commits long), on top of a chain of 2-3 commits, both parent orders, and a second
+# skewed merge stacked on the first: a depth walk that does not take the SHORTEST path gets the
+# boundary wrong here.  Parent tuples are in commit order (not necessarily ascending).
+SKEWED = {
+    "skew5-short-first": ((), (0,), (1,), (2,), (2, 3)),
+    "skew5-long-first": ((), (0,), (1,), (2,), (3, 2)),
+    "skew6-short-first": ((), (0,), (1,), (2,), (3,), (3, 4)),
+    "skew6-long-first": ((), (0,), (1,), (2,), (3,), (4, 3)),
+    "detour2-short-first": ((), (0,), (1,), (2,), (3,), (2, 4)),
+    "detour2-long-first": ((), (0,), (1,), (2,), (3,), (4, 2)),
+    "stacked-short-first": ((), (0,), (1,), (2,), (2, 3), (4,), (4, 5)),
+    "stacked-long-first": ((), (0,), (1,), (2,), (3, 2), (4,), (5, 4)),
+}
+
+
+def skewed_histories(names=None):
+    return [(d, tuple(i % 5 for i in range(len(d))), "none") for k, d in SKEWED.items() if names is None or k in names]
+
+
 def O(**kw):
     """opts tuple in a fixed key order (part of the replay descriptor)."""
     return tuple(sorted(kw.items()))
@@ -1368,6 +1396,8 @@ def block_cases(h, b):
                         out.append((fn, base + (D, fam, rtag, wants) + head + (O(**r),)))
         return out
     for D, fam, rtag in receiver_states(h, b["fams"], b["rtag"], b["alien"]):
+        if b["only_empty"] and D:
+            continue
         for wants in W:
             for row in b["rows"]:
                 out.append((fn, base + (D, fam, rtag, wants) + head + (row,)))
@@ -1474,6 +1504,13 @@ def families(quick):
                       mem((None, 1), True, 3, alien=True),
                       B("inproc", "local-fetch", [P, L], maxwants=2, alien=True),
                       B("inproc", "local-push", [P, L], maxwants=3, alien=True)]))
+    depths = (1, 2, 3, 4, 5, 6)
+    fams.append(("in-process K: 8 skewed-merge histories (n = 5..7, parents at different distances, both parent orders, "
+                 "stacked), no tags: depth 1..6",
+                 skewed_histories(),
+                 [mem(depths, False, 1 if quick else 2),
+                  B("inproc", "local-fetch", [Pd(d) for d in depths], maxwants=1 if quick else 2, only_empty=quick),
+                  clone(("packed",), depths)]))
     return fams
 
 
@@ -1518,6 +1555,13 @@ def proto_families(quick):
             PB(tr, "fetch", [o(**lazy)] + ([] if quick else [o()]), alien=True, maxwants=1 if quick else 2),
             PB(tr, "push", [o()], alien=True, maxwants=1 if quick else 2),
         ] + ([twostep(tr, (None, 2) if quick else (None, 1, 2, 3), **lazy)] if tcp or not quick else [])))
+        if tcp or not quick:
+            fams.append(("%s K: skewed-merge histories (%s), no tags: depth 1..6, empty peer" % (
+                tr, "short-first parent order" if quick else "all 8"),
+                skewed_histories([k for k in SKEWED if k.endswith("short-first")] if quick else None), [
+                PB(tr, "fetch", [o(depth=d, **lazy) for d in (1, 2, 3, 4, 5, 6)], maxwants=1, only_empty=True),
+                PB(tr, "clone", [o(depth=d) for d in (3, 4, 5)], special="clone"),
+            ]))
         fams.append(("%s T: n<=2 all DAGs x 5 tag decorations" % tr, PT, [
             PB(tr, "fetch", [o(**lazy), o(itag=1, **lazy), o(itag=1, ack="single", **lazy), o(itag=1, nodone=1)] if full
                else [o(itag=1), o(itag=1, nodone=1)], maxwants=w_small),
